@@ -265,7 +265,10 @@ def h_threshold(k_half_open, k_established, history='none', same_spi=False):
     return ['threshold', 'open']
 
 
-def h_initiator(cookie_len):
+def h_initiator(cookie_len, second=None):
+    """second: a further COOKIE response arrives after the retry was sent - 'same' = a duplicate (the responder answered a retransmission of the
+    cookie-less request as well), 'other' = another cookie (the responder changed its secret): the initiator's request is again the original
+    request with exactly that one cookie placed first"""
     from symx import core
     eng = core.engine()
     m, ik = MODS['message'], MODS['ikesa']
@@ -275,26 +278,60 @@ def h_initiator(cookie_len):
     a = p.a
     cookie = eng.sym_bytes('cookie', cookie_len)
     spi_r = eng.sym_bytes('spi_r', 8)
-    res = m.Message(spi_i=a.my_spi, spi_r=spi_r, major=2, minor=0, exchange_type=34, is_response=True, can_use_higher_version=False,
-                    is_initiator=False, message_id=0,
-                    payloads=[m.PayloadNOTIFY(m.Proposal.Protocol.NONE, m.PayloadNOTIFY.Type.COOKIE, b'', cookie)], encrypted_payloads=[])
-    r = p.A.call(a.process_message, res.to_bytes())
+    P = eng.prove
+
+    def challenge(ck):
+        res = m.Message(spi_i=a.my_spi, spi_r=spi_r, major=2, minor=0, exchange_type=34, is_response=True, can_use_higher_version=False,
+                        is_initiator=False, message_id=0,
+                        payloads=[m.PayloadNOTIFY(m.Proposal.Protocol.NONE, m.PayloadNOTIFY.Type.COOKIE, b'', ck)], encrypted_payloads=[])
+        return p.A.call(a.process_message, res.to_bytes())
+
+    def expected(ck):
+        # expected retry: header of m1 (length adjusted, first payload NOTIFY) + cookie notify + the payload chain of m1
+        n = len(ck)
+        notify = bytes([m1[16], 0]) + (4 + 4 + n).to_bytes(2, 'big') + bytes([0, 0]) + (16390).to_bytes(2, 'big')
+        total = len(m1) + 8 + n
+        return core.SymBytes(list(m1[:16]) + [41] + list(m1[17:24]) + list(total.to_bytes(4, 'big')) + list(notify)) + ck + m1[28:]
+    r = challenge(cookie)
     if r is None:
         return {'class': ['initiator'], 'violation': 'no retry after a COOKIE notification'}
-    P = eng.prove
-    # expected retry: header of m1 (length adjusted, first payload NOTIFY) + cookie notify + the payload chain of m1
-    first = m1[16]
-    notify = bytes([first, 0]) + (4 + 4 + cookie_len).to_bytes(2, 'big') + bytes([0, 0]) + (16390).to_bytes(2, 'big')
-    total = len(m1) + 8 + cookie_len
-    want = core.SymBytes(list(m1[:16]) + [41] + list(m1[17:24]) + list(total.to_bytes(4, 'big')) + list(notify)) + cookie + m1[28:]
+    want = expected(cookie)
     P(core.SymBytes.lift(r) == want, 'the retried request is not the previous request with the COOKIE notification placed first')
     P(a.my_msg_id == 0, 'the retried IKE_SA_INIT request does not reuse Message ID 0')
     P(core.SymBytes.lift(a.ike_sa_init_req_data) == want, 'the bytes kept for AUTH are not the retried request')
+    if second is not None:
+        cookie2 = cookie if second == 'same' else eng.sym_bytes('cookie2', cookie_len)
+        r2 = challenge(cookie2)
+        L = core.SymBytes.lift
+        if second == 'same':
+            # a duplicate of a response that was already acted upon (the responder answered a retransmission too, or the network duplicated it) must
+            # not change the exchange: the responder is about to answer the retry that is already on its way
+            if r2 is not None:
+                P(L(r2) == want if len(r2) == len(want) else False,
+                  'a duplicate of the COOKIE response changed the request: it is no longer the request with the cookie placed first')
+            P(L(a.ike_sa_init_req_data) == want if len(a.ike_sa_init_req_data) == len(want) else False,
+              'a duplicate of the COOKIE response changed the bytes kept for AUTH: the answer to the retry already sent cannot be authenticated any more')
+        else:
+            # another cookie: the new one comes first; the previous one is either replaced (RFC 7296 2.6) or still follows it
+            n = cookie_len
+            notify = lambda first: bytes([first, 0]) + (8 + n).to_bytes(2, 'big') + bytes([0, 0]) + (16390).to_bytes(2, 'big')
+            total = len(m1) + 2 * (8 + n)
+            stacked = core.SymBytes(list(m1[:16]) + [41] + list(m1[17:24]) + list(total.to_bytes(4, 'big')) + list(notify(41))) + cookie2 + \
+                core.SymBytes(list(notify(m1[16]))) + cookie + m1[28:]
+            replaced = expected(cookie2)
+            if r2 is None:
+                return {'class': ['initiator'], 'violation': 'no retry after a second, different COOKIE notification'}
+            sent = L(r2)
+            P(core.sym_or(sent == replaced if len(sent) == len(replaced) else False, sent == stacked if len(sent) == len(stacked) else False),
+              'after a second, different COOKIE response the request is not the original (or previous) request with the new cookie placed first')
+            P(L(a.ike_sa_init_req_data) == sent if len(a.ike_sa_init_req_data) == len(sent) else False,
+              'after a second COOKIE response the bytes kept for AUTH are not the request that was sent')
+            want = sent
     world.ENV.now = a.retransmit_at + 1
     rt = p.A.call(a.check_retransmission_timer)
     if rt is None:
         return {'class': ['initiator'], 'violation': 'retried request is not retransmitted'}
-    P(core.SymBytes.lift(rt) == want, 'the retransmission after a COOKIE retry is not the retried request')
+    P(core.SymBytes.lift(rt) == want if len(rt) == len(want) else False, 'the retransmission after a COOKIE retry is not the retried request')
     if a.state != S.INIT_REQ_SENT:
         return {'class': ['initiator'], 'violation': f'state {a.state.name} after COOKIE'}
     return ['initiator', 'retry']
@@ -336,6 +373,8 @@ def build_instances(tier):
                                  must_reach=[('armed', lambda o: o == ['threshold', 'armed']), ('open', lambda o: o == ['threshold', 'open'])]))
     for cl in ((1, 32) if tier == 'quick' else (1, 8, 20, 32, 64)):
         inst.append(Instance(f'initiator cookie_len={cl}', h_initiator, (cl,), native=nat(h_initiator)))
+        for second in ('same', 'other'):
+            inst.append(Instance(f'initiator cookie_len={cl} second COOKIE response: {second}', h_initiator, (cl, second), native=nat(h_initiator)))
     return inst
 
 
